@@ -1716,7 +1716,7 @@ impl Lexer<'_> {
                         // string lexing handle it, but this way we
                         // we avoid one extra check
                         self.cursor.advance();
-                        self.lex_macro_string_unrestricted();
+                        self.lex_macro_string_stat_opts();
                     }
                     MacroKwType::MacroCall => {}
                 }
